@@ -362,6 +362,7 @@ func (t *Transport) run() {
 						pc := cq.Dequeue()
 						if pc.NumCalls() > 0 {
 							// handed out before it was retired and now carrying a call: keep it
+							vhook("t.idle.spare", t, pc, 0, vnumcalls(pc))
 							pc.lastTime = t.now
 							cq.Enqueue(pc)
 							continue
@@ -414,6 +415,7 @@ func (t *Transport) CloseIdleConnections() {
 			pc := cq.Dequeue()
 			if pc.NumCalls() > 0 {
 				// not idle after all: a caller that got it before it was retired is using it
+				vhook("t.idle.spare", t, pc, 1, vnumcalls(pc))
 				cq.Enqueue(pc)
 				continue
 			}
